@@ -46,8 +46,17 @@ def dedupe(records):
     return out
 
 
+TRIV = []   # SyltSurface!TrivSeqs, filled from TLC's PRELUDE record
+
+
 def kind_opt(key, v):
-    return "%s=%d" % (key.split("@")[0], v) if key != "indent" else "indent=%d" % v
+    if key == "indent":
+        return "indent=%d" % v
+    kind = key.split("@")[0]
+    if kind in ("b", "g", "o", "d") and v // 8 < len(TRIV):
+        # gaps mask / trivia sequence (T end-of-line comment, C comment line, B blank line)
+        return "%s=%d/%s" % (kind, v % 8, "".join(TRIV[v // 8]) or "-")
+    return "%s=%d" % (kind, v)
 
 
 def diff_keys(ch):
@@ -64,8 +73,8 @@ def signature(case, why, ch):
     return "C14|%s|%s" % (why, "+".join(parts))
 
 
-def render(tops, ch):
-    p = subprocess.run([os.path.join(vlib.BIN, "c14"), "render"], input=json.dumps({"tops": tops, "ch": ch}),
+def render(tops, ch, triv):
+    p = subprocess.run([os.path.join(vlib.BIN, "c14"), "render"], input=json.dumps({"tops": tops, "ch": ch, "triv": triv}),
                        stdout=subprocess.PIPE, stderr=subprocess.PIPE, text=True)
     return p.stdout if p.returncode == 0 else "<<render failed: %s>>" % p.stderr[-300:]
 
@@ -79,7 +88,7 @@ def run(ctx):
     quick = tier == "quick"
     seed = ctx.seed
     genv = {"SEED": seed, "MAXEXH": 6, "MAXPROD": 256, "SKMAXPROD": 4096, "NMIX": 4 if quick else 8,
-            "GENSTRIDE": 24 if quick else 1, "GENPHASE": seed % 24 if quick else 0}
+            "GENSTRIDE": 48 if quick else 1, "GENPHASE": seed % 48 if quick else 0}
     menv = {"MODELSTRIDE": 3 if quick else 1, "MODELPHASE": seed % 3 if quick else 0}
     replay_case = None
     if ctx.replay:
@@ -89,6 +98,7 @@ def run(ctx):
     r = tlc(wd, "preludes", "MC_Surface.cfg", {}, ("PRELUDE",), workers=1)
     vlib.require_tlc_ok(r, "MC_Surface preludes")
     preludes = r.records[0][1]
+    TRIV[:] = preludes["triv"]
     pf = os.path.join(wd, "preludes.json")
     with open(pf, "w") as f:
         json.dump(preludes, f)
@@ -206,7 +216,8 @@ def run(ctx):
                     why, json.dumps(diff_keys(res["ch"]), sort_keys=True)[:200], json.dumps(case["id"], sort_keys=True),
                     len(bad), len(results), res.get("detail", "")),
                     {"kind": "program", "case": small, "bad_variant": res, "plain": results[0],
-                     "plain_source": render(tops, results[0]["ch"]), "variant_source": render(tops, res["ch"])})
+                     "plain_source": render(tops, results[0]["ch"], preludes["triv"]),
+                     "variant_source": render(tops, res["ch"], preludes["triv"])})
 
     # ------------------------------------------------------------------ vacuity: every sugar kind and layout knob was exercised
     if not replay_case:
@@ -214,8 +225,16 @@ def run(ctx):
         for r_ in recs:
             for k_, n_ in r_["written"].items():
                 written[k_] = written.get(k_, 0) + n_
-        need = ["c=1", "c=2", "c=3", "t=1", "l=1", "p=1", "p=2", "s&1", "s&2", "s&4", "s&8", "b&1", "b&2", "b&4", "b&8", "b&16",
+        need = ["c=1", "c=2", "c=3", "t=1", "l=1", "p=1", "p=2", "s&1", "s&2", "s&4", "s&8",
                 "indent=0", "indent=1", "indent=2", "indent=8", "indent=9"]
+        # every trivia sequence (comment line / blank line / end-of-line comment, length <= 3) inside every bracket-like construct,
+        # and every gap (after the opener, after a separator, before the closer) of each
+        ntriv = len(preludes["triv"])
+        gaps = {"call": (1, 2, 4), "tuple": (1, 2, 4), "list": (1, 2, 4), "blob": (1, 2, 4), "enum": (1, 2, 4), "blobdecl": (1, 2, 4),
+                "fromuse": (1, 2, 4), "group": (1, 4), "prime": (2,), "op": (2,)}
+        for cls, bits in gaps.items():
+            need += ["gap&%d:%s" % (b_, cls) for b_ in bits]
+            need += ["triv:%s=%d" % (cls, t_) for t_ in range(0 if cls not in ("blob", "enum", "blobdecl") else 1, ntriv)]
         missing = [k_ for k_ in need if written.get(k_, 0) == 0]
         if missing:
             vlib.tool_error("vacuity: never written in an accepted variant: %s" % missing)
@@ -254,11 +273,12 @@ def run(ctx):
            programs_with_at_most_6_sugar_sites=exh_programs,
            variants_whose_only_difference_is_the_masked_line_number=line_moving,
            exhaustive=(tier == "thorough"),
-           rule="programs: 15 call-heavy skeletons + the shared prelude (all sites) + SyltGen's pairwise-nesting universe, one harness context per "
-                "expression (quick: every 24th pair); variants per program = SyltSurface/MC_Surface!Variants: all legal choice functions over the "
+           rule="programs: 16 skeletons + the shared prelude (all sites) + SyltGen's pairwise-nesting universe, one harness context per "
+                "expression (quick: every 48th pair); variants per program = SyltSurface/MC_Surface!Variants: all legal choice functions over the "
                 "nested expression's (skeleton: all) sugar sites when <= 6 sites and <= 256 (skeleton: 4096) preference functions, every sugar site "
                 "toggled alone to each option, every layout site toggled alone (programs with <= 40 sites), uniform/strided/mixed patterns of call form, "
-                "tails, loops, parentheses 1/2, comment/blank-line masks, bracket masks, indentation 0/1/2/8/tab; a program counts as non-trivial "
+                "tails, loops, parentheses 1/2, comment/blank-line masks, indentation 0/1/2/8/tab, and the layout family: every trivia sequence (<= 3 of comment "
+                "line / blank line / end-of-line comment) at every gap of every bracket-like construct (b@ g@ o@ d@ sites); a program counts as non-trivial "
                 "when it has >= 1 sugar site (all have)",
            samples=[{"id": r_["id"], "variants": len(r_["results"]), "a_choice": r_["results"][len(r_["results"]) // 2]["ch"]} for r_ in recs[:3]],
            known_findings_hit=verdicts.known_hits)
